@@ -235,6 +235,7 @@ func (u *Unit) enterLoopHead(st *State, fr *Frame, head *ssa.BasicBlock, li *loo
 		}
 		if lspec, _ := u.loopSpecFor(st, fr, ord); lspec != nil {
 			env := u.loopEnv(st, fr, head)
+			env.atHead = ls.atHead
 			for i, c := range lspec.Steps {
 				t, err := u.evalBool(st, env, c.Expr)
 				if err != nil {
@@ -410,6 +411,34 @@ func (u *Unit) enterLoopHead(st *State, fr *Frame, head *ssa.BasicBlock, li *loo
 				ls.variant = u.define(st, "variant", "Int", v0)
 				ls.hasVar = true
 			}
+		}
+	}
+	// athead(e) in step clauses: the value of e when this iteration started
+	if lspec, _ := u.loopSpecFor(st, fr, ord); lspec != nil && len(lspec.Steps) > 0 {
+		env := u.loopEnv(st, fr, head)
+		var walk func(e *Spec)
+		walk = func(e *Spec) {
+			if e == nil {
+				return
+			}
+			if e.Kind == SCall && e.A == nil && e.Name == "athead" && len(e.Args) == 1 {
+				if v, err := u.eval(st, env, e.Args[0]); err == nil {
+					if ls.atHead == nil {
+						ls.atHead = map[string]Val{}
+					}
+					ls.atHead[e.Args[0].String()] = v
+				}
+				return
+			}
+			walk(e.A)
+			walk(e.B)
+			walk(e.C)
+			for _, a := range e.Args {
+				walk(a)
+			}
+		}
+		for _, c := range lspec.Steps {
+			walk(c.Expr)
 		}
 	}
 	fr.loops[head] = ls
